@@ -34,7 +34,7 @@ import (
 )
 
 func main() {
-	vh.Main(vh.Commands{"trace": cmdTrace, "cli": cmdCLI, "replay": cmdReplay})
+	vh.Main(vh.Commands{"trace": cmdTrace, "cli": cmdCLI, "replay": cmdReplay, "keyreplay": cmdKeyReplay, "readreplay": cmdReadReplay})
 }
 
 // ------------------------------------------------------------------ scenario generation
@@ -511,6 +511,15 @@ type stats struct {
 	BoundaryFills int            `json:"boundary_fills"` // fills of the read buffer that ended exactly on a line boundary with more input following
 	Gunzip        int            `json:"gunzip"`         // scenarios read with -z
 	GzWindow      map[string]int `json:"gz_window"`      // plain files read with -z by size: below / at / above the probe window; gz = gzip files
+	// PipelineKey.tla
+	LineFacts      int `json:"linefacts"`        // scenarios whose expressions read {src} / {line}
+	LineFactsCuts  int `json:"linefacts_cuts"`   // ... run on the stream path with a timer-cut (short, not last) batch
+	LineFactsMulti int `json:"linefacts_multi"`  // ... with >= 2 sources
+	LineFactsIgn   int `json:"linefacts_ignore"` // ... in which an IGNORE expression reads {src} / {line}
+	// PipelineRead.tla
+	ReadErr       int `json:"readerr"`        // scenarios of the family
+	ReadErrStream int `json:"readerr_stream"` // ... a stream whose last Read returns data together with an error
+	ReadErrGz     int `json:"readerr_gz"`     // ... truncated / damaged gzip files whose decoder reported an error (errors counted by the batcher)
 }
 
 func describe(s *pipe.Scenario) vh.M {
@@ -533,6 +542,38 @@ func account(st *stats, s *pipe.Scenario, out *pipe.Outcome) {
 		st.Geometry++
 		if n := len(s.Sources[0].Raw); n > 0 {
 			st.BoundaryFills += (n - 1) / readBuf
+		}
+	}
+	if s.Family == "readerr" {
+		st.ReadErr++
+		if s.Sources[0].Reader != nil {
+			st.ReadErrStream++
+		} else if out == nil || out.Errors > 0 {
+			st.ReadErrGz++
+		}
+	}
+	if s.LineFacts {
+		st.LineFacts++
+		if len(s.Sources) >= 2 {
+			st.LineFactsMulti++
+		}
+		for _, e := range s.Ignore {
+			if strings.Contains(e, "{line}") || strings.Contains(e, "{src}") {
+				st.LineFactsIgn++
+				break
+			}
+		}
+		if out != nil {
+			for f := range s.Sources {
+				if f < len(out.Batches) {
+					for i, n := range out.Batches[f] {
+						if n < s.Batch && i < len(out.Batches[f])-1 {
+							st.LineFactsCuts++
+							break
+						}
+					}
+				}
+			}
 		}
 	}
 	if s.Gunzip {
@@ -641,6 +682,8 @@ func cmdTrace(args []string) error {
 	hugeLines := fs.Int("hugelines", 20000, "")
 	geom := fs.Int("geom", 0, "buffer-geometry scenarios (PipelineBuf.tla)")
 	gz := fs.Int("gz", 0, "mixed plain/gzip file sets read with -z (PipelineIO.tla)")
+	lf := fs.Int("lf", 0, "scenarios whose expressions read {src} / {line} (PipelineKey.tla)")
+	re := fs.Int("re", 0, "streams failing with data / truncated and damaged gzip files under -z (PipelineRead.tla)")
 	fs.Parse(args)
 	log, err := pipe.NewEventLog(*outp)
 	if err != nil {
@@ -680,6 +723,20 @@ func cmdTrace(args []string) error {
 	for i := 0; i < *gz; i++ {
 		id, v := next+i, i
 		if err := runGenWithRetry(func() (*pipe.Scenario, error) { return genGunzip(seed, id, *dir, v) }, seed, id, *dir, log, st, note); err != nil {
+			return err
+		}
+	}
+	next += *gz
+	for i := 0; i < *lf; i++ {
+		id, v := next+i, i
+		if err := runGenWithRetry(func() (*pipe.Scenario, error) { return genLineFacts(seed, id, *dir, v, false) }, seed, id, *dir, log, st, note); err != nil {
+			return err
+		}
+	}
+	next += *lf
+	for i := 0; i < *re; i++ {
+		id, v := next+i, i
+		if err := runGenWithRetry(func() (*pipe.Scenario, error) { return genReadErr(seed, id, *dir, v, false) }, seed, id, *dir, log, st, note); err != nil {
 			return err
 		}
 	}
@@ -724,6 +781,10 @@ func cmdCLI(args []string) error {
 			s, err = genGunzip(seed, id, *dir, i/4)
 		case i%8 == 5: // buffer geometry through the binary
 			s, err = genGeometry(seed, id, *dir, 1+i/8, true)
+		case i%8 == 4: // truncated / damaged gzip files under -z
+			s, err = genReadErr(seed, id, *dir, 1+2*(i/8), true)
+		case i%8 == 1 || i%8 == 7: // expressions reading {src} / {line}: files (i%8 == 1) and stdin (7)
+			s, err = genLineFacts(seed, id, *dir, map[int]int{1: i / 8 * 3, 7: i/8*3 + 2}[i%8], true)
 		default:
 			s, err = genScenario(seed, id, *dir, o)
 		}
